@@ -80,6 +80,8 @@ def gen_program(rng):
     prog.append(dict(op="new_approx_vals", vals=[[0] + [rng.randint(0, 4) for _ in range(n2 - 2)] + [0]], hom=H, grid=[a2, s2, n2], res=[og], int=int(rng.random() < 0.5)))
     oh = new()
     prog.append(dict(op="new_exact_cp", cps=rand_cp(rng, 0, 6), hom=H + 1, res=[oh]))
+    ah = new()     # a grid landscape of ANOTHER degree on the SAME grid as the others: only the degree check can reject it
+    prog.append(dict(op="new_approx_vals", vals=[[0] + [rng.randint(0, 4) for _ in range(nn - 2)] + [0]], hom=H + 1, grid=[a, s, nn], res=[ah], int=0))
     fr = 0
     for _ in range(rng.randint(3, 9)):
         kind = rng.choice(["e", "e", "a", "a", "snap", "lc", "rej", "extreme"])
@@ -133,8 +135,10 @@ def gen_program(rng):
             else:
                 prog.append(dict(op="lc", args=srcs, coeffs=[list(rng.choice([(1, 1), (-1, 1), (2, 1), (1, 2)])) for _ in range(k)], grid=[lo, step, cnt], res=[n]))
         else:
-            if rng.random() < 0.5:
+            if rng.random() < 0.35:
                 prog.append(dict(op="add", args=[rng.choice(exact), oh], res=[new()], mustraise=1))
+            elif rng.random() < 0.5:
+                prog.append(dict(op=rng.choice(["add", "sub"]), args=rng.sample([rng.choice(approx), ah], 2), res=[new()], mustraise=1))
             else:
                 prog.append(dict(op=rng.choice(["add", "sub"]), args=[rng.choice(approx), og], res=[new()], mustraise=1))
     return prog
